@@ -55,16 +55,16 @@ CLAIMED = {
 XC = " Both tiers end with a binary cross-check: the first 150 (quick) / 600 (thorough) comparable scenarios also go through the find/xargs executables built from the working tree with the hooks feature off (real children; xargs' standard input in turn a pipe, a regular file, a regular file read from an offset). A difference in exit status, child arguments, working directories or output bytes is a VIOLATION with a replay file; a difference in the mere presence of diagnostics is a harness error (exit 2)."
 ENVX = " The process environment is a scenario dimension: variables no statement mentions (POSIXLY_CORRECT, TZ with daylight saving, LC_ALL, ...) and, for find, a terminal as descriptor 1."
 EXT = {
- "C02": " Starting points also come through -files0-from (with a zero-length name, or without the final NUL); one run in 25 walks a chain 24-48 levels deep while the soft RLIMIT_NOFILE leaves 16-22 free descriptors." + ENVX + XC,
+ "C02": " Starting points also come through -files0-from (with a zero-length name, or without the final NUL); one run in 25 walks a chain 24-48 levels deep while the soft RLIMIT_NOFILE leaves 16-22 free descriptors; also depth options given twice, hundreds of unreadable entries or of starting points, a directory of more than 65535 entries." + ENVX + XC,
  "C04": " A small slice runs real children, which must receive what the seam recorded and must not be able to read xargs' own input stream; one run in 60 carries an argument 1-200 bytes short of the kernel's 128 KiB single-string limit." + ENVX + XC,
  "C05": " Also: both -0 and -d C in either order (the one given last applies), delimited fields beyond the 8 KiB BufReader, unclosed quotes followed by kilobytes of text, CR/VT/FF (compared across read plans only), the built-in echo judged on xargs' own output, the stream read from a real -a FILE (also one in /proc, whose size is reported as 0), and 20000-300000 consecutive separators on a thread with a small stack (a worker killed by the code under test is the violation <ID>.crash)." + ENVX + XC,
  "C06": " One run in six is replace mode (-I {}) with templates of 1-6 placeholders and lines sized so that a substituted argument lands at the per-argument limit or the whole substituted command line at the kernel budget; one in forty exceeds the kernel's 6 MiB ceiling under a large or unlimited stack limit. Where the accounting says an argument cannot be passed but xargs passed it, a real execve of that command line decides.",
  "C07": " A quarter of the runs use -H/-L/-follow; the starting point itself may be named by blanks only, contain a newline, a quote or be multi-byte, or come from -files0-from; a fifth of the runs use xargs -0 -I{}." + ENVX + XC,
  "C08": " Also -mindepth/-maxdepth, starting points with directory components or spelled DIR/.., a crowded directory below the top (several batches from inside one directory), a second {} + action, and file names that are not valid UTF-8. One run in 25 has real child processes (their own log of arguments and working directory, by device and inode, must agree with the seam's record and every invocation must start), two thirds of those from a working directory 2000-6000 bytes deep, beyond PATH_MAX." + ENVX + XC,
  "C09": " Also file names that are not valid UTF-8, starting points with directory components or spelled DIR/.., template arguments spelled like find's own options (-help, --version, -delete, ...), a second action, follow modes; when no test precedes the action every entry of an independent reference walk must reach it. One run in 25 has real child processes, two thirds of those from a working directory beyond PATH_MAX; one in 150 fills the command line at run time to 300-5200 bytes under what the system accepts (the kernel is asked first)." + ENVX + XC,
- "C10": " Also `( -delete ... -o -quit )` (the first failing removal ends the walk and must still give a non-zero status), names that are not valid UTF-8, find's working directory inside the tree it deletes (the first starting point reached as ../t; the reference removals run from the same directory with the same relative names) and starting points spelled DIR/.. . Diagnostics are counted, never matched by wording." + ENVX,
+ "C10": " Also `( -delete ... -o -quit )` (the first failing removal ends the walk and must still give a non-zero status), names that are not valid UTF-8, find's working directory inside the tree it deletes (the first starting point reached as ../t; the reference removals run from the same directory with the same relative names), starting points spelled DIR/.., -follow written after the action, hundreds of failing removals under one starting point. Diagnostics are counted, never matched by wording." + ENVX,
  "C15": " A fifth of the runs carry a second time test in the same expression (often on the same reference file); ages and reference timestamps reach back before 1970. Every run also constructs the real StandardDependencies, lets the clock advance and requires now() to lie inside the construction interval and to be stable: 'now' is fixed when find starts." + ENVX,
- "C19": " Also replace mode, empty input (the single invocation's outcome is the status), a quote as the very last byte, and a decoy file named like the command in the current directory (a command that cannot be found stays 127)." + ENVX + XC,
+ "C19": " Also replace mode, empty input (the single invocation's outcome is the status), a quote as the very last byte, a decoy file named like the command in the current directory (a command that cannot be found stays 127), exactly 256/512 failing invocations, an argument of exactly 131072 bytes, and a real child given as a bare name that is found on PATH behind a file of that name that cannot be executed." + ENVX + XC,
  "C20": " Also -s that every line fits by 0-5 bytes (each line must still run), -0/-d together with the replace option, a line that makes one argument 1-200 bytes short of the kernel's 128 KiB single-string limit, and a slice with real children, which must not be able to read xargs' own input stream." + ENVX + XC,
 }
 
